@@ -2,7 +2,7 @@
    `*_ok` predicate of Spec/Grammar.v for its position (so that the AST is the parse of its own sentences).
    The os.path.normpath part reuses C09's theorem normpath_idempotent through a bridge lemma
    (Model/Lex.v's normpath and Model/Path.v's normpath are the same function). *)
-From Asimap Require Import Base.Res Base.Bytes Model.Lex Spec.Grammar Model.ParseM Proofs.LexP Proofs.ParseT.
+From Asimap Require Import Base.Res Base.Bytes Model.Lex Spec.Grammar Model.ParseM Proofs.LexP Proofs.ParseP Proofs.ParseT.
 From Asimap Require Model.Path Proofs.PathP.
 From Coq Require Import Lia ZArith List Bool.
 Import ListNotations.
@@ -30,26 +30,19 @@ Proof. induction cs as [|c cs IH]; intros acc; cbn [fold_left]; [reflexivity|]. 
 Lemma join_slash_same l : join_slash l = Path.join_slash l.
 Proof. reflexivity. Qed.
 
+Lemma initial_slashes_same p : initial_slashes p = Path.initial_slashes p.
+Proof.
+  unfold initial_slashes, Path.initial_slashes, Path.SLASH. cbn [Path.startswith].
+  destruct p as [|a [|b [|c t]]]; cbn [Path.startswith]; try reflexivity.
+  - destruct (a =? 47); reflexivity.
+  - destruct (a =? 47), (b =? 47); reflexivity.
+  - destruct (a =? 47), (b =? 47), (c =? 47); reflexivity.
+Qed.
+
 Lemma normpath_bridge s : normpath s = Path.normpath s.
 Proof.
   unfold normpath, Path.normpath. destruct s as [|c s]; [reflexivity|].
-  set (p := c :: s).
-  assert (Hk : (match p with
-                | 47 :: 47 :: 47 :: _ => 1%nat
-                | 47 :: 47 :: _ => 2%nat
-                | 47 :: _ => 1%nat
-                | _ => 0%nat
-                end) = Path.initial_slashes p).
-  { unfold p, Path.initial_slashes, Path.SLASH. cbn [Path.startswith].
-    destruct (Z.eqb_spec c 47) as [->|Hc].
-    - cbn [andb]. destruct s as [|c2 s]; [reflexivity|]. destruct (Z.eqb_spec c2 47) as [->|Hc2].
-      + cbn [andb]. destruct s as [|c3 s]; [reflexivity|]. destruct (Z.eqb_spec c3 47) as [->|Hc3]; [reflexivity|].
-        cbn [andb negb]. destruct c3 as [|q|q]; try reflexivity.
-        do 6 (destruct q as [q|q|]; try reflexivity); congruence.
-      + cbn [andb]. destruct c2 as [|q|q]; try reflexivity.
-        do 6 (destruct q as [q|q|]; try reflexivity); congruence.
-    - destruct c as [|q|q]; try reflexivity. do 6 (destruct q as [q|q|]; try reflexivity); congruence. }
-  rewrite Hk. unfold Path.np_comps, Path.or_dot, Path.s_dot, Path.DOT, Path.SLASH.
+  rewrite initial_slashes_same. unfold Path.np_comps, Path.or_dot, Path.s_dot, Path.DOT, Path.SLASH.
   rewrite split_on_slash, fold_norm_np, join_slash_same. reflexivity.
 Qed.
 
@@ -58,6 +51,969 @@ Proof. rewrite !normpath_bridge. apply PathP.normpath_idempotent. Qed.
 
 Lemma normpath_nonempty s : normpath s <> [].
 Proof.
-  unfold normpath. destruct s as [|c s]; [discriminate|].
-  match goal with |- (match ?p with [] => _ | _ => ?p end) <> [] => destruct p eqn:E; [discriminate|discriminate] end.
+  unfold normpath. destruct s as [|c s]; [discriminate|]. cbv zeta.
+  match goal with |- (match ?p with [] => _ | _ => _ end) <> [] => destruct p; discriminate end.
 Qed.
+
+(* ------------------------------------------------------------------ numbers *)
+Lemma dv_app z a b : dv z (a ++ b) = dv (dv z a) b.
+Proof. unfold dv. apply fold_left_app. Qed.
+
+Lemma digit_val_range c : is_digit c = true -> 0 <= digit_val c <= 9.
+Proof. unfold is_digit, in_range, digit_val. intros H. apply andb_true_iff in H. destruct H as [H1 H2].
+       apply Z.leb_le in H1, H2. lia. Qed.
+
+Lemma dv_bounds ds : forallb is_digit ds = true -> forall z, 0 <= z ->
+  z * 10 ^ Z.of_nat (List.length ds) <= dv z ds < (z + 1) * 10 ^ Z.of_nat (List.length ds).
+Proof.
+  induction ds as [|d ds IH]; intros Hd z Hz.
+  - cbn. lia.
+  - cbn [forallb] in Hd. apply andb_true_iff in Hd. destruct Hd as [H1 H2].
+    pose proof (digit_val_range d H1) as Hr.
+    change (dv z (d :: ds)) with (dv (z * 10 + digit_val d) ds).
+    specialize (IH H2 (z * 10 + digit_val d) ltac:(lia)).
+    cbn [List.length]. rewrite Nat2Z.inj_succ, Z.pow_succ_r by lia.
+    set (P := 10 ^ Z.of_nat (List.length ds)) in *. assert (0 < P) by (apply Z.pow_pos_nonneg; lia). nia.
+Qed.
+
+Lemma digits_fuel_len fuel : forall n acc k, 0 <= n < 10 ^ Z.of_nat k -> (1 <= k)%nat ->
+  (List.length (digits_fuel fuel n acc) <= k + List.length acc)%nat.
+Proof.
+  induction fuel as [|f IH]; intros n acc k Hn Hk; cbn [digits_fuel]; [lia|].
+  destruct (Z.ltb_spec n 10) as [Hlt|Hge]; [cbn [List.length]; lia|].
+  destruct k as [|k]; [lia|]. destruct k as [|k]; [cbn in Hn; lia|].
+  specialize (IH (n / 10) ((48 + n mod 10) :: acc) (S k)).
+  cbn [List.length] in IH. rewrite (Nat2Z.inj_succ (S k)), Z.pow_succ_r in Hn by lia.
+  assert (0 <= n / 10 < 10 ^ Z.of_nat (S k)) by (split; [apply Z.div_pos; lia|apply Z.div_lt_upper_bound; lia]).
+  specialize (IH H ltac:(lia)). lia.
+Qed.
+
+Lemma r_number_len n k : 0 <= n < 10 ^ Z.of_nat k -> (1 <= k)%nat -> (List.length (r_number n) <= k)%nat.
+Proof. intros Hn Hk. unfold r_number. pose proof (digits_fuel_len (S (Z.to_nat (Z.log2 n))) n [] k Hn Hk). cbn in *. lia. Qed.
+
+(* the bound on the size of the input, kept folded so that lia and cbn never expand it *)
+Definition BIG : Z := 10 ^ 4300.
+Arguments BIG : simpl never.
+Lemma BIG_eq : BIG = 10 ^ Z.of_nat 4300.
+Proof. reflexivity. Qed.
+
+Lemma num_ok_small n : 0 <= n < BIG -> num_ok n = true.
+Proof.
+  intros Hn. unfold num_ok, int_ok, MAX_STR_DIGITS. apply andb_true_iff. split; [apply Z.leb_le; lia|].
+  apply Z.leb_le. rewrite BIG_eq in Hn. pose proof (r_number_len n 4300%nat Hn) as H.
+  assert (H1 : (1 <= 4300)%nat) by (apply Nat.leb_le; reflexivity). specialize (H H1).
+  apply Nat2Z.inj_le in H. change (Z.of_nat 4300) with 4300 in H. exact H.
+Qed.
+
+(* what int() returns for a string of digits it accepts is a number it will accept again *)
+Lemma num_ok_digits ds : ds <> [] -> forallb is_digit ds = true -> int_ok ds = true -> num_ok (digits_val ds) = true.
+Proof.
+  intros Hne Hd Hi. rewrite digits_val_dv. pose proof (dv_bounds ds Hd 0 ltac:(lia)) as Hb.
+  unfold num_ok. apply andb_true_iff. split; [apply Z.leb_le; lia|].
+  unfold int_ok, MAX_STR_DIGITS in *. apply Z.leb_le in Hi. apply Z.leb_le.
+  assert (Hk : (1 <= List.length ds)%nat) by (destruct ds; [contradiction|cbn; lia]).
+  pose proof (r_number_len (dv 0 ds) (List.length ds) ltac:(lia) Hk). lia.
+Qed.
+
+(* ------------------------------------------------------------------ normpath does not lengthen a name *)
+Fixpoint wsum (l : list (list Z)) : nat :=
+  match l with [] => 0%nat | c :: t => (S (List.length c) + wsum t)%nat end.
+Fixpoint wne (l : list (list Z)) : nat :=
+  match l with [] => 0%nat | c :: t => (match c with [] => 0 | _ => S (List.length c) end + wne t)%nat end.
+
+Lemma wsum_app a b : wsum (a ++ b) = (wsum a + wsum b)%nat.
+Proof. induction a as [|x a IH]; cbn [wsum app]; [reflexivity|]. rewrite IH. lia. Qed.
+Lemma wsum_rev l : wsum (rev l) = wsum l.
+Proof. induction l as [|x l IH]; cbn [rev wsum]; [reflexivity|]. rewrite wsum_app, IH. cbn [wsum]. lia. Qed.
+Lemma wne_le_wsum l : (wne l <= wsum l)%nat.
+Proof. induction l as [|x l IH]; cbn [wne wsum]; [lia|]. destruct x; cbn [List.length]; lia. Qed.
+
+Lemma split_on_wsum sep s : wsum (split_on sep s) = S (List.length s).
+Proof.
+  induction s as [|c s IH]; cbn [split_on]; [reflexivity|]. destruct (c =? sep).
+  - cbn [wsum List.length]. lia.
+  - destruct (split_on sep s) as [|h t]; [cbn in IH; discriminate|].
+    cbn [wsum List.length] in *. lia.
+Qed.
+
+Lemma norm_step_w b acc c : (wsum (norm_step b acc c) <= wsum acc + match c with [] => 0 | _ => S (List.length c) end)%nat.
+Proof.
+  unfold norm_step. destruct (beq c [] || beq c [46]) eqn:E1; [lia|].
+  destruct c as [|x c]; [discriminate E1|].
+  destruct (negb (beq (x :: c) dotdot)); [cbn [wsum]; lia|].
+  destruct acc as [|t acc]; [destruct b; cbn [wsum List.length]; lia|].
+  destruct (beq t dotdot); cbn [wsum List.length]; lia.
+Qed.
+Lemma fold_norm_w b cs : forall acc, (wsum (fold_left (norm_step b) cs acc) <= wsum acc + wne cs)%nat.
+Proof.
+  induction cs as [|c cs IH]; intros acc; cbn [fold_left wne]; [lia|].
+  pose proof (IH (norm_step b acc c)). pose proof (norm_step_w b acc c). lia.
+Qed.
+Lemma join_slash_len l : l <> [] -> S (List.length (join_slash l)) = wsum l.
+Proof.
+  induction l as [|x [|y l] IH]; intros Hne; [contradiction|cbn; lia|].
+  change (join_slash (x :: y :: l)) with (x ++ 47 :: join_slash (y :: l)).
+  rewrite app_length. cbn [List.length]. specialize (IH ltac:(discriminate)).
+  cbn [wsum] in *. lia.
+Qed.
+
+Lemma normpath_len x : x <> [] -> (List.length (normpath x) <= List.length x)%nat.
+Proof.
+  intros Hne. unfold normpath. destruct x as [|c0 x0] eqn:Ex; [contradiction|]. rewrite <- Ex. cbv zeta.
+  set (k := initial_slashes x).
+  set (l := rev (fold_left (norm_step (negb (Nat.eqb k 0))) (split_on 47 x) [])).
+  assert (Hl : (wsum l <= wne (split_on 47 x))%nat).
+  { unfold l. rewrite wsum_rev. pose proof (fold_norm_w (negb (Nat.eqb k 0)) (split_on 47 x) []). cbn [wsum] in H. lia. }
+  pose proof (split_on_wsum 47 x) as Hs.
+  (* the leading slashes are empty components *)
+  assert (Hk : (wne (split_on 47 x) + k <= S (List.length x))%nat).
+  { unfold k, initial_slashes. rewrite Ex. cbn [split_on]. destruct (Z.eqb_spec c0 47) as [->|Hc0].
+    - destruct x0 as [|c1 x1].
+      + cbn. lia.
+      + cbn [split_on]. destruct (Z.eqb_spec c1 47) as [->|Hc1].
+        * pose proof (wne_le_wsum (split_on 47 x1)) as H1. pose proof (split_on_wsum 47 x1) as H2.
+          destruct x1 as [|c2 x2]; [cbn in *; lia|]. destruct (c2 =? 47); cbn [wne wsum List.length] in *; lia.
+        * pose proof (wne_le_wsum (split_on 47 (c1 :: x1))) as H1. pose proof (split_on_wsum 47 (c1 :: x1)) as H2.
+          cbn [split_on] in H1, H2. destruct (c1 =? 47) eqn:E; [apply Z.eqb_eq in E; contradiction|].
+          cbn [wne wsum List.length] in *. lia.
+    - pose proof (wne_le_wsum (split_on 47 (c0 :: x0))) as H1. pose proof (split_on_wsum 47 (c0 :: x0)) as H2.
+      cbn [split_on] in H1, H2. destruct (c0 =? 47) eqn:E; [apply Z.eqb_eq in E; contradiction|]. lia. }
+  assert (Hk2 : (k <= 2)%nat).
+  { unfold k, initial_slashes. destruct x as [|a [|b [|c t]]]; repeat match goal with |- context [?u =? 47] => destruct (u =? 47) end; lia. }
+  assert (Hkx : (k <= List.length x)%nat).
+  { unfold k, initial_slashes. destruct x as [|a [|b [|c t]]]; cbn [List.length];
+      repeat match goal with |- context [?u =? 47] => destruct (u =? 47) end; lia. }
+  clearbody l. clearbody k.
+  destruct l as [|y l'].
+  - cbn [join_slash]. rewrite app_nil_r. destruct k as [|k']; cbn [repeat]; [rewrite Ex; cbn; lia|].
+    cbn [List.length]. rewrite repeat_length. lia.
+  - assert (Hj : S (List.length (join_slash (y :: l'))) = wsum (y :: l')) by (apply join_slash_len; discriminate).
+    assert (Hlen : List.length (repeat 47 k ++ join_slash (y :: l')) = (k + List.length (join_slash (y :: l')))%nat)
+      by (rewrite app_length, repeat_length; reflexivity).
+    destruct (repeat 47 k ++ join_slash (y :: l')) eqn:Ep; [rewrite Ex; cbn; lia|]. lia.
+Qed.
+
+(* ------------------------------------------------------------------ strings are pieces of the input *)
+Lemma scan_quoted_body_blen : forall n s b r, (List.length s <= n)%nat ->
+  scan_quoted_body s = Some (b, r) -> (List.length b <= List.length s)%nat.
+Proof.
+  induction n as [|n IH]; intros s b r Hn H.
+  - destruct s; [discriminate|cbn in Hn; lia].
+  - destruct s as [|c s]; [discriminate|]. cbn [scan_quoted_body] in H. cbn [List.length] in Hn.
+    destruct (c =? 34); [inversion H; subst; cbn; lia|].
+    destruct (c =? 92).
+    + destruct s as [|e s]; [discriminate|]. destruct ((e =? 34) || (e =? 92)); [|discriminate].
+      destruct (scan_quoted_body s) as [[b' r']|] eqn:E; [|discriminate]. inversion H; subst.
+      apply IH in E; [cbn [List.length]; lia|cbn [List.length] in Hn; lia].
+    + destruct ((c =? 13) || (c =? 10)); [discriminate|].
+      destruct (scan_quoted_body s) as [[b' r']|] eqn:E; [|discriminate]. inversion H; subst.
+      apply IH in E; [cbn [List.length]; lia|lia].
+Qed.
+
+Lemma string_len s v r : p_string s = ROk v r -> (List.length v <= List.length s)%nat.
+Proof.
+  intros E. unfold p_string in E. destruct (scan_quoted s) as [[b r0]|] eqn:Eq.
+  - inversion E; subst. unfold scan_quoted in Eq. destruct s as [|c s]; [discriminate|].
+    destruct (c =? 34); [|discriminate]. apply (scan_quoted_body_blen (List.length s)) in Eq; [|lia].
+    cbn [List.length]. lia.
+  - destruct (scan_lit_ref s) as [[ds r0]|] eqn:El; [|discriminate]. apply scan_lit_ref_len in El.
+    unfold p_int in E. destruct (int_ok ds); [|discriminate].
+    destruct (Z.of_nat (List.length r0) <? digits_val ds); [discriminate|]. inversion E; subst.
+    rewrite firstn_length. lia.
+Qed.
+Lemma span_fst_len p s : (List.length (fst (span p s)) <= List.length s)%nat.
+Proof.
+  induction s as [|c s IH]; cbn [span]; [cbn; lia|]. destruct (p c); [|cbn; lia].
+  destruct (span p s) as [a r]. cbn in *. lia.
+Qed.
+Lemma try_many1_str_len p s v r :
+  (match try_many1 p s with Some (a, r) => ROk a r | None => p_string s end) = ROk v r ->
+  (List.length v <= List.length s)%nat.
+Proof.
+  unfold try_many1. pose proof (span_fst_len p s) as Hl. destruct (span p s) as [a r0]. cbn in Hl.
+  destruct a as [|c a]; [apply string_len|]. intros E. inversion E; subst. exact Hl.
+Qed.
+Lemma astring_len s v r : p_astring s = ROk v r -> (List.length v <= List.length s)%nat.
+Proof. apply try_many1_str_len. Qed.
+Lemma list_mailbox_len s v r : p_list_mailbox s = ROk v r -> (List.length v <= List.length s)%nat.
+Proof. apply try_many1_str_len. Qed.
+
+Lemma span_all p s : forallb p (fst (span p s)) = true.
+Proof.
+  induction s as [|c s IH]; cbn [span]; [reflexivity|]. destruct (p c) eqn:E; [|reflexivity].
+  destruct (span p s) as [a r]. cbn [fst forallb] in *. rewrite E, IH. reflexivity.
+Qed.
+Lemma atom_is_atom s a r : p_atom s = ROk a r -> is_atom a = true.
+Proof.
+  unfold p_atom, p_many1. pose proof (span_all atom_char s) as H. destruct (span atom_char s) as [a0 r0]. cbn in H.
+  destruct a0 as [|c a0]; [discriminate|]. intros E. inversion E; subst. exact H.
+Qed.
+Ltac binds E :=
+  unfold pbind, pfail, pret in E;
+  repeat match type of E with
+         | match ?p ?x with _ => _ end = _ => let B := fresh "B" in destruct (p x) as [? ?| |?] eqn:B; try discriminate
+         end.
+
+(* ------------------------------------------------------------------ the framework *)
+Section Outputs.
+Variable N : nat.
+Hypothesis HN : Z.of_nat N < BIG.
+
+Definition okb {A} (q : A -> bool) (p : parser A) : Prop :=
+  forall s a r, (List.length s <= N)%nat -> p s = ROk a r -> q a = true.
+
+Lemma ok_ret {A} (q : A -> bool) a : q a = true -> okb q (pret a).
+Proof. intros H s a' r _ E. inversion E; subst. exact H. Qed.
+Lemma ok_fail {A} (q : A -> bool) : okb q pfail.
+Proof. intros s a r _ E. discriminate E. Qed.
+Lemma ok_any {A} (p : parser A) : okb (fun _ => true) p.
+Proof. intros s a r _ _. reflexivity. Qed.
+Lemma ok_weaken {A} (q q' : A -> bool) p : (forall a, q a = true -> q' a = true) -> okb q p -> okb q' p.
+Proof. intros H Hp s a r Hs E. apply H. eapply Hp; eassumption. Qed.
+Lemma ok_bind {A B} (q1 : A -> bool) (q2 : B -> bool) (p : parser A) (f : A -> parser B) :
+  okb q1 p -> good p -> (forall a, q1 a = true -> okb q2 (f a)) -> okb q2 (pbind p f).
+Proof.
+  intros H1 Hg H2 s b r2 Hs E. unfold pbind in E. specialize (Hg s).
+  destruct (p s) as [a r| |k] eqn:Ep; try discriminate. cbn in Hg.
+  eapply (H2 a); [eapply H1; eassumption| |exact E]. lia.
+Qed.
+Lemma ok_pmap {A B} (q : A -> bool) (q' : B -> bool) (g : A -> B) p :
+  okb q p -> (forall a, q a = true -> q' (g a) = true) -> okb q' (pmap g p).
+Proof.
+  intros Hp Hg s b r Hs E. unfold pmap, pbind in E. destruct (p s) as [a r0| |k] eqn:Ep; try discriminate.
+  inversion E; subst. apply Hg. eapply Hp; eassumption.
+Qed.
+Lemma ok_if {A} (q : A -> bool) (b : list Z -> bool) p p' : okb q p -> okb q p' -> okb q (fun s => if b s then p s else p' s).
+Proof. intros H1 H2 s a r Hs E. destruct (b s); [eapply H1|eapply H2]; eassumption. Qed.
+Lemma ok_try {A} (q : A -> bool) k (p p' : parser A) : okb q p -> okb q p' ->
+  okb q (fun s => match try_lit k s with Some r => p r | None => p' s end).
+Proof.
+  intros H1 H2 s a r Hs E. unfold try_lit in E. destruct (match_ci k s) as [r0|] eqn:Em; [|eapply H2; eassumption].
+  apply match_ci_len in Em. eapply H1; [|exact E]. lia.
+Qed.
+
+(* ------------------------------------------------------------------ leaves *)
+Definition tok_ok (p : Z -> bool) (a : list Z) : bool := match a with [] => false | _ => forallb p a end.
+Lemma ok_many1 p : okb (tok_ok p) (p_many1 p).
+Proof.
+  intros s a r _ E. unfold p_many1 in E. pose proof (span_all p s) as H. destruct (span p s) as [a0 r0]. cbn in H.
+  destruct a0 as [|c a0]; [discriminate|]. inversion E; subst. exact H.
+Qed.
+
+Lemma ok_number : okb num_ok p_number.
+Proof.
+  intros s n r _ E. unfold p_number, pbind, p_many1 in E. pose proof (span_all is_digit s) as H.
+  destruct (span is_digit s) as [ds r0]. cbn in H. destruct ds as [|d ds]; [discriminate|].
+  unfold p_int in E. destruct (int_ok (d :: ds)) eqn:Ei; [|discriminate]. inversion E; subst.
+  apply num_ok_digits; [discriminate|exact H|exact Ei].
+Qed.
+
+Lemma str_ok_len v : (List.length v <= N)%nat -> str_ok v = true.
+Proof. intros H. unfold str_ok. apply num_ok_small. lia. Qed.
+
+Lemma ok_string : okb str_ok p_string.
+Proof. intros s v r Hs E. apply str_ok_len. apply string_len in E. lia. Qed.
+Lemma ok_astring : okb str_ok p_astring.
+Proof. intros s v r Hs E. apply str_ok_len. apply astring_len in E. lia. Qed.
+Lemma ok_list_mailbox : okb str_ok p_list_mailbox.
+Proof. intros s v r Hs E. apply str_ok_len. apply list_mailbox_len in E. lia. Qed.
+
+Lemma ok_atom : okb is_atom p_atom.
+Proof. exact (ok_many1 atom_char). Qed.
+
+Lemma ok_flag : okb flag_ok p_flag.
+Proof.
+  intros s f r Hs E. unfold p_flag, try_lit in E. destruct (match_ci [92] s) as [r0|] eqn:Em.
+  - unfold pmap, pbind in E. destruct (p_atom r0) as [a r1| |k] eqn:Ea; try discriminate. inversion E; subst.
+    apply match_ci_len in Em. cbn. eapply ok_atom; [|exact Ea]. lia.
+  - pose proof (ok_atom s f r Hs E) as Ha. unfold flag_ok. destruct f as [|c a]; [discriminate|].
+    destruct (Z.eqb_spec c 92) as [->|Hne]; [|exact Ha]. cbn in Ha. discriminate.
+Qed.
+
+
+(* ------------------------------------------------------------------ mailbox names *)
+Lemma mailbox_norm_ok x : (List.length x <= N)%nat -> mailbox_ok (mailbox_norm x) = true.
+Proof.
+  intros Hx. unfold mailbox_norm. set (y := match x with [] => [] | _ => normpath x end).
+  destruct (beq (lower_s y) inbox) eqn:E.
+  - reflexivity.
+  - unfold mailbox_ok. apply andb_true_iff. split.
+    + assert (Hy : mailbox_norm y = y).
+      { destruct x as [|c x']; [reflexivity|]. unfold y in *. cbv iota in E. cbv iota.
+        pose proof (normpath_nonempty (c :: x')) as Hne.
+        destruct (normpath (c :: x')) as [|c1 y1] eqn:En; [contradiction|].
+        assert (Hid : normpath (c1 :: y1) = c1 :: y1) by (rewrite <- En; apply normpath_idem).
+        unfold mailbox_norm. rewrite Hid, E. reflexivity. }
+      rewrite Hy. apply beq_refl.
+    + apply str_ok_len. unfold y. destruct x as [|c x']; [cbn; lia|].
+      pose proof (normpath_len (c :: x') ltac:(discriminate)). lia.
+Qed.
+Lemma ok_mailbox : okb mailbox_ok p_mailbox.
+Proof.
+  intros s m r Hs E. unfold p_mailbox, pmap, pbind in E. destruct (p_astring s) as [x r0| |k] eqn:Ea; try discriminate.
+  inversion E; subst. apply mailbox_norm_ok. apply astring_len in Ea. lia.
+Qed.
+
+Lemma lower_s_idem s : lower_s (lower_s s) = lower_s s.
+Proof.
+  induction s as [|c s IH]; cbn [lower_s map]; [reflexivity|]. fold (lower_s s). fold (lower_s (lower_s s)). rewrite IH. f_equal.
+  unfold py_lower. zb.
+  destruct (65 <=? c) eqn:E1, (c <=? 90) eqn:E2, (192 <=? c) eqn:E3, (c <=? 222) eqn:E4, (c =? 215) eqn:E5; cbn [andb negb]; zbool;
+    repeat match goal with |- context [?a <=? ?b] => destruct (Z.leb_spec a b) end;
+    repeat match goal with |- context [?a =? ?b] => destruct (Z.eqb_spec a b) end; cbn [andb negb]; try reflexivity; lia.
+Qed.
+
+Lemma pattern_norm_ok p : (List.length p <= N)%nat -> pattern_ok (pattern_norm p) = true.
+Proof.
+  intros Hp. unfold pattern_norm. destruct (beq (lower_s p) inbox) eqn:E.
+  - reflexivity.
+  - unfold pattern_ok, pattern_norm. rewrite E, beq_refl. apply str_ok_len. exact Hp.
+Qed.
+Lemma ok_pattern : okb pattern_ok p_list_mailbox_pattern.
+Proof.
+  intros s m r Hs E. unfold p_list_mailbox_pattern, pmap, pbind in E.
+  destruct (p_list_mailbox s) as [x r0| |k] eqn:Ea; try discriminate.
+  inversion E; subst. apply pattern_norm_ok. apply list_mailbox_len in Ea. lia.
+Qed.
+
+Lemma lowered_ok_lower v : (List.length v <= N)%nat -> lowered_ok (lower_s v) = true.
+Proof.
+  intros Hv. unfold lowered_ok. rewrite lower_s_idem, beq_refl. apply str_ok_len. unfold lower_s. rewrite map_length. exact Hv.
+Qed.
+Lemma ok_lower_astring : okb lowered_ok p_lower_astring.
+Proof.
+  intros s m r Hs E. unfold p_lower_astring, pmap, pbind in E. destruct (p_astring s) as [x r0| |k] eqn:Ea; try discriminate.
+  inversion E; subst. apply lowered_ok_lower. apply astring_len in Ea. lia.
+Qed.
+
+(* ------------------------------------------------------------------ message sets *)
+Lemma seq_atom_val_ok piece a : seq_atom_ok piece = true -> seq_atom_val piece = ROk a [] -> satom_ok a = true.
+Proof.
+  unfold seq_atom_ok, seq_atom_val. destruct piece as [|c p]; [discriminate|]. intros H.
+  destruct (beq (c :: p) [42]) eqn:E; [intros X; inversion X; reflexivity|].
+  rewrite orb_false_r in H. destruct (int_ok (c :: p)) eqn:Ei; [|discriminate].
+  intros X. inversion X; subst. cbn [satom_ok]. apply num_ok_digits; [discriminate|exact H|exact Ei].
+Qed.
+Lemma seq_atom_val_rest piece a r : seq_atom_val piece = ROk a r -> r = [].
+Proof. unfold seq_atom_val. destruct (beq piece [42]); [|destruct (int_ok piece)]; intros X; inversion X; reflexivity. Qed.
+
+Lemma seq_elt_ok piece e r : seq_elt piece = ROk e r -> selt_ok e = true.
+Proof.
+  unfold seq_elt. destruct (seq_atom_ok piece) eqn:Eo.
+  - destruct (seq_atom_val piece) as [a r0| |k] eqn:Ev; try discriminate.
+    pose proof (seq_atom_val_rest _ _ _ Ev); subst r0. pose proof (seq_atom_val_ok _ _ Eo Ev) as Ha.
+    destruct a; intros X; inversion X; subst; exact Ha.
+  - destruct (split_on 58 piece) as [|a [|b [|c l]]]; try discriminate.
+    destruct (seq_atom_ok a && seq_atom_ok b) eqn:Eab; [|discriminate].
+    apply andb_true_iff in Eab. destruct Eab as [Ea Eb].
+    destruct (seq_atom_val a) as [x r0| |k] eqn:Eva; try discriminate.
+    destruct (seq_atom_val b) as [y r1| |k] eqn:Evb; try discriminate.
+    pose proof (seq_atom_val_rest _ _ _ Eva); subst r0. pose proof (seq_atom_val_rest _ _ _ Evb); subst r1.
+    intros X. inversion X; subst. cbn [selt_ok]. rewrite (seq_atom_val_ok _ _ Ea Eva), (seq_atom_val_ok _ _ Eb Evb). reflexivity.
+Qed.
+Lemma seq_elts_ok pieces : forall l r, seq_elts pieces = ROk l r ->
+  forallb selt_ok l = true /\ List.length l = List.length pieces.
+Proof.
+  induction pieces as [|p ps IH]; intros l r E; cbn [seq_elts] in E; [inversion E; split; reflexivity|].
+  destruct (seq_elt p) as [e r0| |k] eqn:Ee; try discriminate.
+  destruct (seq_elts ps) as [es r1| |k] eqn:Es; try discriminate. inversion E; subst.
+  destruct (IH es r1 eq_refl) as [H1 H2]. cbn [forallb List.length]. rewrite (seq_elt_ok _ _ _ Ee), H1, H2. split; reflexivity.
+Qed.
+Lemma split_on_nonempty sep s : split_on sep s <> [].
+Proof.
+  induction s as [|c s IH]; cbn [split_on]; [discriminate|]. destruct (c =? sep); [discriminate|].
+  destruct (split_on sep s); [contradiction|discriminate].
+Qed.
+Lemma ok_msg_set : okb set_ok p_msg_set.
+Proof.
+  intros s l r _ E. unfold p_msg_set in E. destruct (span msgset_char s) as [txt r0]. destruct txt as [|c txt]; [discriminate|].
+  destruct (seq_elts (split_on 44 (c :: txt))) as [l0 r1| |k] eqn:Es; try discriminate. inversion E; subst.
+  destruct (seq_elts_ok _ _ _ Es) as [H1 H2]. unfold set_ok. destruct l as [|e l]; [|exact H1].
+  pose proof (split_on_nonempty 44 (c :: txt)). destruct (split_on 44 (c :: txt)); [contradiction|discriminate H2].
+Qed.
+
+(* ------------------------------------------------------------------ dates *)
+Lemma scan_month_from_range ms : forall i s m r, scan_month_from i ms s = Some (m, r) -> i <= m < i + Z.of_nat (List.length ms).
+Proof.
+  induction ms as [|x ms IH]; intros i s m r H; cbn [scan_month_from] in H; [discriminate|].
+  destruct (match_ci x s); [inversion H; subst; cbn [List.length]; lia|].
+  apply IH in H. cbn [List.length]. lia.
+Qed.
+Lemma scan_mon_year_range s m y r : scan_mon_year s = Some (m, y, r) -> 1 <= m <= 12 /\ 0 <= y <= 9999.
+Proof.
+  unfold scan_mon_year. destruct s as [|h s1]; [discriminate|]. destruct (h =? 45); [|discriminate].
+  destruct (scan_month s1) as [[m' s2]|] eqn:E; [|discriminate]. apply scan_month_from_range in E. cbn in E.
+  destruct s2 as [|h2 [|a [|b [|c [|d s3]]]]]; try discriminate.
+  destruct ((h2 =? 45) && is_digit a && is_digit b && is_digit c && is_digit d) eqn:C; [|discriminate].
+  intros H. inversion H; subst. repeat (apply andb_true_iff in C; destruct C as [C ?]).
+  repeat match goal with Hd : is_digit _ = true |- _ => apply digit_val_range in Hd end.
+  unfold four. lia.
+Qed.
+Lemma scan_date_text_range s d m y r : scan_date_text s = Some (d, m, y, r) -> 1 <= m <= 12.
+Proof.
+  unfold scan_date_text.
+  set (one := match s with
+              | a :: s1 => if is_digit a then match scan_mon_year s1 with Some (m0, y0, r0) => Some (digit_val a, m0, y0, r0) | None => None end else None
+              | [] => None end).
+  assert (Hone : one = Some (d, m, y, r) -> 1 <= m <= 12).
+  { unfold one. destruct s as [|a s1]; [discriminate|]. destruct (is_digit a); [|discriminate].
+    destruct (scan_mon_year s1) as [[[m0 y0] r0]|] eqn:E; [|discriminate]. apply scan_mon_year_range in E.
+    intros H. inversion H; subst. tauto. }
+  destruct s as [|a [|b s2]]; try exact Hone.
+  destruct (is_digit a && is_digit b); [|exact Hone].
+  destruct (scan_mon_year s2) as [[[m0 y0] r0]|] eqn:E; [|exact Hone]. apply scan_mon_year_range in E.
+  intros H. inversion H; subst. tauto.
+Qed.
+Lemma ok_date : okb date_wf p_date.
+Proof.
+  intros s [[y m] d] r _ E. unfold p_date in E. destruct (scan_date s) as [[[[d' m'] y'] r0]|] eqn:Es; [|discriminate].
+  destruct (date_ok y' m' d') eqn:Ed; [|discriminate]. inversion E; subst.
+  assert (Hm : 1 <= m <= 12).
+  { unfold scan_date in Es. destruct s as [|q s1]; [discriminate|]. destruct (q =? 34).
+    - destruct (scan_date_text s1) as [[[[d0 m0] y0] [|q2 r']]|] eqn:E2; try discriminate.
+      destruct (q2 =? 34); [|discriminate]. inversion Es; subst. eapply scan_date_text_range. exact E2.
+    - eapply scan_date_text_range. exact Es. }
+  unfold date_wf. rewrite Ed. replace (1 <=? m) with true by (symmetry; apply Z.leb_le; lia).
+  replace (m <=? 12) with true by (symmetry; apply Z.leb_le; lia). reflexivity.
+Qed.
+
+Lemma two_range a b : is_digit a = true -> is_digit b = true -> 0 <= two a b <= 99.
+Proof. intros Ha Hb. apply digit_val_range in Ha, Hb. unfold two. lia. Qed.
+
+Lemma ok_date_time : okb date_time_wf p_date_time.
+Proof.
+  intros s t r _ E. unfold p_date_time in E.
+  destruct (scan_date_time s) as [[[[[[[[[[d m] y] h] mi] sec] neg] zh] zm] r0]|] eqn:Es; [|discriminate].
+  match type of E with (if ?c then _ else _) = _ => destruct c eqn:C end; [|discriminate]. inversion E; subst. clear E.
+  unfold scan_date_time in Es. destruct s as [|q [|d1 [|d2 s1]]]; try discriminate.
+  destruct ((q =? 34) && ((d1 =? 32) || is_digit d1) && is_digit d2) eqn:C1; [|discriminate].
+  destruct (scan_mon_year s1) as [[[m0 y0] s2]|] eqn:E2; [|discriminate]. apply scan_mon_year_range in E2.
+  destruct s2 as [|sp1 [|h1 [|h2 [|c1 [|m1 [|m2 [|c2 [|x1 [|x2 [|sp2 [|sg [|z1 [|z2 [|z3 [|z4 [|q2 r1]]]]]]]]]]]]]]]];
+    try discriminate.
+  match type of Es with (if ?c then _ else _) = _ => destruct c eqn:C2 end; [|discriminate].
+  inversion Es; subst. clear Es.
+  repeat (apply andb_true_iff in C2; destruct C2 as [C2 ?]).
+  repeat (apply andb_true_iff in C; destruct C as [C ?]).
+  pose proof (two_range h1 h2 ltac:(assumption) ltac:(assumption)) as Rh.
+  pose proof (two_range m1 m2 ltac:(assumption) ltac:(assumption)) as Rm.
+  pose proof (two_range x1 x2 ltac:(assumption) ltac:(assumption)) as Rs.
+  pose proof (two_range z1 z2 ltac:(assumption) ltac:(assumption)) as Rz1.
+  pose proof (two_range z3 z4 ltac:(assumption) ltac:(assumption)) as Rz2.
+  zbool. unfold date_time_wf.
+  assert (Hy : 100 <= fix_year y) by (unfold fix_year; destruct (y <? 100) eqn:E1; [destruct (68 <? y)|]; zbool; lia).
+  set (off := two z1 z2 * 3600 + two z3 z4 * 60) in *.
+  assert (Hoff : 0 <= off) by (unfold off; lia).
+  assert (Hmod : (if sg =? 45 then - off else off) mod 60 = 0).
+  { destruct (sg =? 45); unfold off.
+    - replace (- (two z1 z2 * 3600 + two z3 z4 * 60)) with ((- (two z1 z2 * 60 + two z3 z4)) * 60) by lia. apply Z.mod_mul. lia.
+    - replace (two z1 z2 * 3600 + two z3 z4 * 60) with ((two z1 z2 * 60 + two z3 z4) * 60) by lia. apply Z.mod_mul. lia. }
+  assert (Habs : Z.abs (if sg =? 45 then - off else off) < 86400) by (destruct (sg =? 45); lia).
+  unfold date_ok. rewrite Hmod. destruct E2 as [Em Ey].
+  repeat (apply andb_true_iff; split);
+    first [apply Z.leb_le; lia | apply Z.ltb_lt; lia | reflexivity].
+Qed.
+
+
+(* ------------------------------------------------------------------ lists *)
+Lemma paren_list_loop_ok {A} (q : A -> bool) (elem : parser A) : okb q elem -> good elem ->
+  forall fuel s l r, (List.length s <= N)%nat -> paren_list_loop elem fuel s = ROk l r -> forallb q l = true.
+Proof.
+  intros Hq Hg. induction fuel as [|f IH]; intros s l r Hs E; [discriminate|]. cbn [paren_list_loop] in E.
+  pose proof (Hg s) as G. destruct (elem s) as [a r0| |k] eqn:Ee; try discriminate. cbn in G.
+  pose proof (Hq s a r0 Hs Ee) as Ha.
+  destruct (try_lit [41] r0) as [r1|]; [inversion E; subst; cbn [forallb]; rewrite Ha; reflexivity|].
+  destruct (p_sp r0) as [[] r1| |k] eqn:Ep; try discriminate. apply p_sp_shrinks in Ep.
+  destruct (paren_list_loop elem f r1) as [l1 r2| |k] eqn:El; try discriminate. inversion E; subst.
+  cbn [forallb]. rewrite Ha. eapply IH; [|exact El]. lia.
+Qed.
+Lemma ok_paren_list {A} (q : A -> bool) (elem : parser A) : okb q elem -> good elem -> okb (forallb q) (p_paren_list_of elem).
+Proof.
+  intros Hq Hg s l r Hs E. unfold p_paren_list_of in E. pose proof (good_p_lit [40] s) as G.
+  destruct (p_lit [40] s) as [[] r0| |k]; try discriminate. cbn in G.
+  destruct (try_lit [41] r0); [inversion E; reflexivity|].
+  eapply (paren_list_loop_ok q elem Hq Hg); [|exact E]. lia.
+Qed.
+Definition nonempty_all {A} (q : A -> bool) (l : list A) : bool := match l with [] => false | _ => forallb q l end.
+Lemma list_loop_ok {A} (q : A -> bool) (elem : parser A) : okb q elem -> good elem ->
+  forall fuel s l r, (List.length s <= N)%nat -> list_loop elem fuel s = ROk l r -> nonempty_all q l = true.
+Proof.
+  intros Hq Hg. induction fuel as [|f IH]; intros s l r Hs E; [discriminate|]. cbn [list_loop] in E.
+  pose proof (Hg s) as G. destruct (elem s) as [a r0| |k] eqn:Ee; try discriminate. cbn in G.
+  pose proof (Hq s a r0 Hs Ee) as Ha. unfold try_lit in E.
+  destruct (match_ci sp r0) as [r1|] eqn:Em; [|inversion E; subst; cbn; rewrite Ha; reflexivity].
+  apply match_ci_len in Em. cbn in Em.
+  destruct (list_loop elem f r1) as [l1 r2| |k] eqn:El; try discriminate. inversion E; subst.
+  assert (H1 : nonempty_all q l1 = true) by (eapply IH; [|exact El]; lia).
+  unfold nonempty_all in *. destruct l1; [discriminate|]. cbn [forallb] in *. rewrite Ha, H1. reflexivity.
+Qed.
+Lemma ok_list_of {A} (q : A -> bool) (elem : parser A) : okb q elem -> good elem -> okb (nonempty_all q) (p_list_of elem).
+Proof. intros Hq Hg s l r Hs E. unfold p_list_of in E. eapply (list_loop_ok q elem Hq Hg); eassumption. Qed.
+
+(* ------------------------------------------------------------------ FETCH *)
+Lemma section_nums_ok : forall fuel s l r, section_nums fuel s = ROk l r -> forallb num_ok l = true.
+Proof.
+  induction fuel as [|f IH]; intros s l r E; [discriminate|]. cbn [section_nums] in E.
+  destruct (p_number s) as [n r0| |k] eqn:En; try discriminate; [|inversion E; reflexivity].
+  assert (Hn : num_ok n = true).
+  { unfold p_number, pbind, p_many1 in En. pose proof (span_all is_digit s) as H. destruct (span is_digit s) as [ds r1]. cbn in H.
+    destruct ds as [|d ds]; [discriminate|]. unfold p_int in En. destruct (int_ok (d :: ds)) eqn:Ei; [|discriminate].
+    inversion En; subst. apply num_ok_digits; [discriminate|exact H|exact Ei]. }
+  destruct (p_lit [46] r0) as [[] r1| |k]; try discriminate.
+  - destruct (section_nums f r1) as [l1 r2| |k] eqn:El; try discriminate. inversion E; subst.
+    cbn [forallb]. rewrite Hn. eapply IH. exact El.
+  - inversion E; subst. cbn [forallb]. rewrite Hn. reflexivity.
+Qed.
+
+Lemma first_lit_in {A} (tbl : list (list Z * A)) s a r : first_lit tbl s = Some (a, r) -> In a (map snd tbl).
+Proof.
+  induction tbl as [|[k b] tbl IH]; cbn [first_lit]; [discriminate|].
+  destruct (try_lit k s); [intros H; inversion H; subst; left; reflexivity|]. intros H. right. apply IH. exact H.
+Qed.
+
+Lemma ok_section : okb section_ok p_section.
+Proof.
+  intros s sec r Hs E. unfold p_section, pbind in E. pose proof (good_p_lit [91] s) as G0.
+  destruct (p_lit [91] s) as [[] s0| |k]; try discriminate. cbn in G0.
+  pose proof (section_nums_good (S (List.length s0)) s0 ltac:(lia)) as G1.
+  destruct (section_nums (S (List.length s0)) s0) as [nums r0| |k] eqn:En; try discriminate. cbn in G1.
+  apply section_nums_ok in En.
+  destruct (try_lit [93] r0); [inversion E; subst; unfold section_ok; rewrite En; reflexivity|].
+  destruct (first_lit (section_texts match nums with [] => false | _ => true end) r0) as [[tk r1]|] eqn:Ef; [|discriminate].
+  pose proof (first_lit_len _ _ _ _ Ef) as L1. pose proof (first_lit_in _ _ _ _ Ef) as Hin.
+  assert (Hfields : forall neg, (p_sp ;;; hl <- p_paren_list_of p_astring ;;
+                     match hl with [] => pfail | _ => p_lit [93] ;;; pret (nums, Some (TxFields neg hl)) end)%parser r1 = ROk sec r ->
+                    section_ok sec = true).
+  { intros neg X. unfold pbind in X. destruct (p_sp r1) as [[] r2| |k] eqn:E2; try discriminate. apply p_sp_shrinks in E2.
+    destruct (p_paren_list_of p_astring r2) as [hl r3| |k] eqn:E3; try discriminate.
+    assert (Hh : forallb str_ok hl = true) by (eapply (ok_paren_list str_ok p_astring ok_astring good_astring); [|exact E3]; lia).
+    destruct hl as [|h hl]; [discriminate|]. destruct (p_lit [93] r3) as [[] r4| |k]; try discriminate.
+    inversion X; subst. unfold section_ok. rewrite En. exact Hh. }
+  destruct tk; [apply (Hfields true); exact E|apply (Hfields false); exact E| | |];
+    unfold pbind in E; (destruct (p_lit [93] r1) as [[] r2| |k]; try discriminate); inversion E; subst;
+    unfold section_ok; rewrite En; cbn [sect_text_ok]; try reflexivity.
+  (* MIME is only in the table when there are part numbers *)
+  destruct nums; [|reflexivity]. cbn in Hin. intuition discriminate.
+Qed.
+
+Lemma ok_partial : okb (fun p => num_ok (fst p) && num_ok (snd p)) p_partial.
+Proof.
+  unfold p_partial.
+  eapply ok_bind; [apply ok_any|apply good_p_lit|intros _ _].
+  eapply ok_bind; [apply ok_number|apply good_number|intros a Ha].
+  eapply ok_bind; [apply ok_any|apply good_p_lit|intros _ _].
+  eapply ok_bind; [apply ok_number|apply good_number|intros b Hb].
+  eapply ok_bind; [apply ok_any|apply good_p_lit|intros _ _].
+  apply ok_ret. cbn [fst snd]. rewrite Ha, Hb. reflexivity.
+Qed.
+
+Lemma ok_body_rest peek : okb fatt_ok (p_body_rest peek).
+Proof.
+  unfold p_body_rest. eapply ok_bind; [apply ok_section|apply good_section|intros sec Hsec].
+  apply ok_if.
+  - eapply ok_bind; [apply ok_partial|apply good_partial|intros [a b] Hp]. apply ok_ret. cbn [fatt_ok]. rewrite Hsec. exact Hp.
+  - apply (ok_ret fatt_ok (FBody peek sec None)). cbn [fatt_ok]. rewrite Hsec. reflexivity.
+Qed.
+Lemma ok_fetch_att : okb fatt_ok p_fetch_att.
+Proof.
+  unfold p_fetch_att. eapply ok_bind; [apply ok_any|apply good_many1|intros tok _].
+  destruct (lookup fetch_toks (lower_s tok)) as [[o| | | | |]|]; cbn [fetch_dispatch];
+    try (apply ok_ret; reflexivity); try apply ok_fail; try apply ok_body_rest.
+  apply (ok_if fatt_ok (peek_lit [91]) (p_body_rest false) (fun s => ROk FBodyShort s)); [apply ok_body_rest|].
+  apply (ok_ret fatt_ok FBodyShort). reflexivity.
+Qed.
+Lemma ok_fetch_atts : okb (forallb fatt_ok) p_fetch_atts.
+Proof.
+  unfold p_fetch_atts. apply ok_if; [apply ok_paren_list; [apply ok_fetch_att|apply good_fetch_att]|].
+  apply (ok_try (forallb fatt_ok) (bs "all") (fun r => ROk macro_all r)); [apply (ok_ret (forallb fatt_ok) macro_all); reflexivity|].
+  apply (ok_try (forallb fatt_ok) (bs "full") (fun r => ROk macro_full r)); [apply (ok_ret (forallb fatt_ok) macro_full); reflexivity|].
+  apply (ok_try (forallb fatt_ok) (bs "fast") (fun r => ROk macro_fast r)); [apply (ok_ret (forallb fatt_ok) macro_fast); reflexivity|].
+  eapply ok_pmap; [apply ok_fetch_att|]. intros a Ha. cbn [forallb]. rewrite Ha. reflexivity.
+Qed.
+
+
+(* ------------------------------------------------------------------ SEARCH *)
+Lemma lookup_in {A} (tbl : list (list Z * A)) k v : lookup tbl k = Some v -> In v (map snd tbl).
+Proof.
+  unfold lookup. destruct (find (fun e => beq k (fst e)) tbl) as [e|] eqn:E; [|discriminate].
+  intros H. inversion H; subst. apply find_some in E. apply in_map. tauto.
+Qed.
+
+Lemma skey_ok_mono : forall d k, skey_ok true d k = true -> skey_ok true (S d) k = true.
+Proof.
+  induction d as [|d IH]; intros k Hk;
+    (destruct k as [|f|h s|w dt|s|s|n|n|k'|a c|l|l|l]; cbn [skey_ok andb] in *; try exact Hk).
+  - destruct (not_alt_ok k'); [reflexivity|discriminate].
+  - discriminate.
+  - destruct (is_new l); [reflexivity|]. destruct l as [|x [|y l]]; try exact Hk; discriminate.
+  - destruct (not_alt_ok k'); [reflexivity|apply IH; exact Hk].
+  - apply andb_true_iff in Hk. destruct Hk as [H1 H2]. rewrite (IH _ H1), (IH _ H2). reflexivity.
+  - destruct (is_new l); [reflexivity|]. destruct l as [|x [|y l]]; try exact Hk.
+    rewrite forallb_forall in *. intros z Hz. apply IH. apply Hk. exact Hz.
+Qed.
+
+Ltac pick_in Hin :=
+  cbn in Hin; repeat (destruct Hin as [Hx|Hin]; [try discriminate Hx; inversion Hx; subst; clear Hx|]); try contradiction.
+
+Lemma ok_search_dispatch nested d t : okb (skey_ok true d) nested -> good nested ->
+  In t (map snd search_toks) -> okb (skey_ok true (S d)) (search_dispatch nested (Some t)).
+Proof.
+  intros Hn Hg Hin.
+  destruct t as [|f|f|h|w| | | | | | | | | | | |]; cbn [search_dispatch].
+  - apply ok_ret; reflexivity.
+  - pick_in Hin; apply ok_ret; reflexivity.
+  - pick_in Hin; apply ok_ret; reflexivity.
+  - eapply ok_bind; [apply ok_any|apply good_p_lit|intros _ _].
+    eapply ok_bind; [apply ok_lower_astring|apply good_lower_astring|intros v Hv].
+    pick_in Hin; apply ok_ret; cbn [skey_ok]; rewrite Hv; reflexivity.
+  - eapply ok_bind; [apply ok_any|apply good_p_lit|intros _ _].
+    eapply ok_bind; [apply ok_date|apply good_date|intros v Hv]. apply ok_ret. exact Hv.
+  - eapply ok_bind; [apply ok_any|apply good_p_lit|intros _ _].
+    eapply ok_bind; [apply ok_lower_astring|apply good_lower_astring|intros v Hv]. apply ok_ret. exact Hv.
+  - eapply ok_bind; [apply ok_any|apply good_p_lit|intros _ _].
+    eapply ok_bind; [apply ok_lower_astring|apply good_lower_astring|intros v Hv]. apply ok_ret. exact Hv.
+  - (* header *)
+    eapply ok_bind; [apply ok_any|apply good_p_lit|intros _ _].
+    eapply ok_bind; [apply ok_lower_astring|apply good_lower_astring|intros h Hh].
+    eapply ok_bind; [apply ok_any|apply good_p_lit|intros _ _].
+    eapply ok_bind; [apply ok_lower_astring|apply good_lower_astring|intros v Hv]. apply ok_ret. cbn [skey_ok]. rewrite Hh, Hv. reflexivity.
+  - (* keyword *)
+    eapply ok_bind; [apply ok_any|apply good_p_lit|intros _ _].
+    eapply ok_bind; [apply ok_atom|apply good_atom|intros f Hf]. apply ok_ret. cbn [skey_ok]. destruct (sysflag_key f); [reflexivity|exact Hf].
+  - (* unkeyword *)
+    eapply ok_bind; [apply ok_any|apply good_p_lit|intros _ _].
+    eapply ok_bind; [apply ok_atom|apply good_atom|intros f Hf]. apply ok_ret. cbn [skey_ok not_alt_ok andb].
+    destruct (unflag_key f); [reflexivity|]. rewrite Hf. reflexivity.
+  - eapply ok_bind; [apply ok_any|apply good_p_lit|intros _ _].
+    eapply ok_bind; [apply ok_number|apply good_number|intros v Hv]. apply ok_ret. exact Hv.
+  - eapply ok_bind; [apply ok_any|apply good_p_lit|intros _ _].
+    eapply ok_bind; [apply ok_number|apply good_number|intros v Hv]. apply ok_ret. exact Hv.
+  - apply ok_ret; reflexivity.
+  - apply ok_ret; reflexivity.
+  - (* not *)
+    eapply ok_bind; [apply ok_any|apply good_p_lit|intros _ _].
+    eapply ok_bind; [exact Hn|exact Hg|intros k Hk]. apply ok_ret. cbn [skey_ok andb]. destruct (not_alt_ok k); [reflexivity|exact Hk].
+  - (* or *)
+    eapply ok_bind; [apply ok_any|apply good_p_lit|intros _ _].
+    eapply ok_bind; [exact Hn|exact Hg|intros a Ha].
+    eapply ok_bind; [apply ok_any|apply good_p_lit|intros _ _].
+    eapply ok_bind; [exact Hn|exact Hg|intros b Hb]. apply ok_ret. cbn [skey_ok]. rewrite Ha, Hb. reflexivity.
+  - eapply ok_bind; [apply ok_any|apply good_p_lit|intros _ _].
+    eapply ok_bind; [apply ok_msg_set|apply good_msg_set|intros v Hv]. apply ok_ret. exact Hv.
+Qed.
+
+Lemma ok_search_key_body nested d : okb (skey_ok true d) nested -> good nested ->
+  okb (skey_ok true (S d)) (search_key_body nested).
+Proof.
+  intros Hn Hg. unfold search_key_body. apply ok_if.
+  - intros s k r Hs E. destruct (p_paren_list_of nested s) as [l r0| |c] eqn:El; try discriminate.
+    pose proof (ok_paren_list (skey_ok true d) nested Hn Hg s l r0 Hs El) as Hl.
+    destruct l as [|x [|y l]]; inversion E; subst.
+    + reflexivity.
+    + apply skey_ok_mono. cbn [forallb] in Hl. rewrite andb_true_r in Hl. exact Hl.
+    + cbn [skey_ok andb]. destruct (is_new (x :: y :: l)); [reflexivity|exact Hl].
+  - intros s k r Hs E. unfold try_many1 in E. pose proof (span_length search_char s) as Hl.
+    destruct (span search_char s) as [tok r0]. cbn in Hl. destruct tok as [|c tok].
+    + eapply ok_pmap; [apply ok_msg_set| |exact Hs|exact E]. intros l Hl0. exact Hl0.
+    + destruct (lookup search_toks (lower_s (c :: tok))) as [t|] eqn:Et; [|discriminate].
+      eapply (ok_search_dispatch nested d t Hn Hg); [eapply lookup_in; exact Et| |exact E]. lia.
+Qed.
+
+(* at depth 0 the nested parser is pfail: what is accepted satisfies the depth-0 predicate *)
+Lemma skey_ok_1_0 k : skey_ok true 1 k = true ->
+  match k with
+  | KNot k' => not_alt_ok k' = true
+  | KOr _ _ => False
+  | KAnd l => is_new l = true \/ l = []
+  | _ => True
+  end -> skey_ok true 0 k = true.
+Proof.
+  destruct k as [|f|h s|w dt|s|s|n|n|k'|a c|l|l|l]; cbn [skey_ok andb]; intros H X; try exact H.
+  - rewrite X. reflexivity.
+  - contradiction.
+  - destruct X as [X| ->]; [rewrite X; reflexivity|]. reflexivity.
+Qed.
+
+Lemma ok_search_key_0 : okb (skey_ok true 0) (p_search_key 0).
+Proof.
+  intros s k r Hs E.
+  assert (H1 : skey_ok true 1 k = true).
+  { eapply (ok_search_key_body pfail 0); [apply ok_fail|apply good_fail|exact Hs|exact E]. }
+  apply skey_ok_1_0; [exact H1|]. clear H1. cbn [p_search_key] in E. unfold search_key_body in E.
+  destruct (peek_lit [40] s).
+  - unfold p_paren_list_of in E. destruct (p_lit [40] s) as [[] r0| |c]; try discriminate.
+    destruct (try_lit [41] r0); [inversion E; right; reflexivity|].
+    destruct (S (List.length r0)); cbn [paren_list_loop pfail] in E; discriminate.
+  - unfold try_many1 in E. destruct (span search_char s) as [tok r0]. destruct tok as [|c tok].
+    + unfold pmap, pbind in E. destruct (p_msg_set s) as [? ?| |?]; try discriminate. inversion E; exact I.
+    + destruct (lookup search_toks (lower_s (c :: tok))) as [t|] eqn:Et; [|discriminate].
+      pose proof (lookup_in _ _ _ Et) as Hin.
+      destruct t as [|f|f|h|w| | | | | | | | | | | |]; cbn [search_dispatch] in E.
+      * inversion E; exact I.
+      * inversion E; exact I.
+      * inversion E; subst. pick_in Hin; reflexivity.
+      * binds E. inversion E; exact I.
+      * binds E. inversion E; exact I.
+      * binds E. inversion E; exact I.
+      * binds E. inversion E; exact I.
+      * binds E. inversion E; exact I.
+      * binds E. inversion E; exact I.
+      * binds E. inversion E; subst. cbn [not_alt_ok].
+        match goal with B : p_atom _ = ROk ?f _ |- _ => apply atom_is_atom in B; destruct (unflag_key f); [reflexivity|exact B] end.
+      * binds E. inversion E; exact I.
+      * binds E. inversion E; exact I.
+      * inversion E. left. reflexivity.
+      * inversion E. reflexivity.
+      * binds E.
+      * binds E.
+      * binds E. inversion E; exact I.
+Qed.
+
+
+Lemma ok_search_key d : okb (skey_ok true d) (p_search_key d).
+Proof.
+  induction d as [|d IH]; [apply ok_search_key_0|]. cbn [p_search_key].
+  apply ok_search_key_body; [exact IH|apply good_search_key].
+Qed.
+
+(* ------------------------------------------------------------------ LIST *)
+Lemma fold_sel_ok l : forall o, sel_ok (fold_left sel_add l o) = negb (so_recursive (fold_left sel_add l o))
+                                   || so_subscribed (fold_left sel_add l o) || so_special (fold_left sel_add l o).
+Proof. intros o. reflexivity. Qed.
+
+Lemma ok_select_options : okb sel_ok p_select_options.
+Proof.
+  unfold p_select_options. eapply ok_bind; [apply ok_any|apply good_paren_list_of; apply good_sel_item|intros l _]. cbv zeta.
+  set (o := fold_left sel_add l sel_none).
+  destruct (so_recursive o && negb (so_subscribed o || so_special o)) eqn:E; [apply ok_fail|].
+  apply ok_ret. unfold sel_ok. destruct (so_recursive o), (so_subscribed o), (so_special o); cbn in *; congruence.
+Qed.
+
+(* status flag set <-> status attributes present *)
+Definition ret_consistent (p : ret_opts * list status_att) : bool :=
+  if ro_status (fst p) then match snd p with [] => false | _ => true end else match snd p with [] => true | _ => false end.
+Definition retitem_ok (i : retitem) : bool := match i with RtStatus [] => false | _ => true end.
+
+Lemma fold_ret_consistent l : forall acc, forallb retitem_ok l = true -> ret_consistent acc = true ->
+  ret_consistent (fold_left ret_apply l acc) = true.
+Proof.
+  induction l as [|i l IH]; intros acc Hl Ha; cbn [fold_left]; [exact Ha|].
+  cbn [forallb] in Hl. apply andb_true_iff in Hl. destruct Hl as [Hi Hl]. apply IH; [exact Hl|].
+  destruct i as [t|st]; unfold ret_apply, ret_consistent in *; cbn [fst snd] in *.
+  - destruct t; cbn [ret_add ro_status]; exact Ha.
+  - cbn [ro_status]. destruct st; [discriminate|reflexivity].
+Qed.
+
+Lemma ok_ret_item : okb retitem_ok p_ret_item.
+Proof.
+  unfold p_ret_item. eapply ok_bind; [apply ok_any|apply good_atom|intros a _].
+  destruct (beq (lower_s a) (bs "status")).
+  - eapply ok_bind; [apply ok_any|apply good_p_lit|intros _ _].
+    eapply ok_bind; [apply ok_any|apply good_paren_list_of; apply good_status_att|intros st _].
+    destruct st; [apply ok_fail|apply ok_ret; reflexivity].
+  - destruct (lookup ret_toks (lower_s a)); [apply ok_ret; reflexivity|apply ok_fail].
+Qed.
+Lemma ok_return_options : okb ret_consistent p_return_options.
+Proof.
+  unfold p_return_options.
+  eapply ok_bind; [apply ok_paren_list; [apply ok_ret_item|apply good_ret_item]|apply good_paren_list_of; apply good_ret_item|intros l Hl].
+  apply ok_ret. apply fold_ret_consistent; [exact Hl|reflexivity].
+Qed.
+
+Lemma ok_list lsub : okb (cmd_okb true) (p_list lsub).
+Proof.
+  unfold p_list.
+  eapply ok_bind; [apply ok_any|apply good_p_lit|intros _ _].
+  eapply ok_bind; [|apply good_list_sel|intros sel Hsel].
+  { unfold p_list_sel. apply ok_if.
+    - eapply ok_bind; [apply ok_select_options|apply good_select_options|intros o Ho].
+      eapply ok_bind; [apply ok_any|apply good_p_lit|intros _ _]. apply ok_ret. exact Ho.
+    - apply (ok_ret sel_ok sel_none). reflexivity. }
+  eapply ok_bind; [apply ok_mailbox|apply good_mailbox|intros ref Href].
+  eapply ok_bind; [apply ok_any|apply good_p_lit|intros _ _].
+  eapply ok_bind; [|apply good_list_pats|intros pp Hpp].
+  { unfold p_list_pats.
+    apply (ok_if (fun pp => match snd pp with [] => str_ok (fst pp) | _ => beq (fst pp) [] && forallb pattern_ok (snd pp) end)).
+    - eapply ok_pmap; [apply ok_paren_list; [apply ok_pattern|apply good_pattern]|].
+      intros l Hl. cbn [fst snd]. destruct l; [reflexivity|exact Hl].
+    - eapply ok_pmap; [apply ok_list_mailbox|]. intros p Hp. exact Hp. }
+  eapply ok_bind; [|apply good_list_ret|intros rr Hrr].
+  { unfold p_list_ret. apply (ok_try ret_consistent sp).
+    - eapply ok_bind; [apply ok_any|apply good_p_lit|intros _ _].
+      eapply ok_bind; [apply ok_any|apply good_p_lit|intros _ _]. apply ok_return_options.
+    - apply (ok_ret ret_consistent (ret_none, [])). reflexivity. }
+  apply ok_ret. cbn [cmd_okb]. rewrite Hsel, Href. cbn [andb].
+  destruct pp as [pat pats]. destruct rr as [ro st]. cbn [fst snd] in *. rewrite Hpp. cbn [andb].
+  unfold ret_consistent in Hrr. cbn [fst snd] in Hrr. exact Hrr.
+Qed.
+
+(* ------------------------------------------------------------------ ID *)
+Lemma dict_put_keys {V} (d : list (list Z * V)) k v : keys_distinct d = true -> keys_distinct (dict_put d k v) = true
+  /\ (forall k0, existsb (fun e => beq k0 (fst e)) (dict_put d k v) = beq k0 k || existsb (fun e => beq k0 (fst e)) d).
+Proof.
+  induction d as [|[k' v'] d IH]; intros Hd; cbn [dict_put].
+  - split; [reflexivity|]. intros k0. cbn. reflexivity.
+  - cbn [keys_distinct] in Hd. apply andb_true_iff in Hd. destruct Hd as [Hk Hd]. destruct (IH Hd) as [I1 I2].
+    destruct (beq k k') eqn:E.
+    + apply beq_eq in E. subst k'. split.
+      * cbn [keys_distinct]. rewrite Hk. exact Hd.
+      * intros k0. cbn [existsb fst]. destruct (beq k0 k); reflexivity.
+    + split.
+      * cbn [keys_distinct]. rewrite I1, andb_true_r. rewrite I2. rewrite beq_sym in E. rewrite E. cbn [orb]. exact Hk.
+      * intros k0. cbn [existsb fst]. rewrite I2. destruct (beq k0 k'), (beq k0 k); reflexivity.
+Qed.
+Lemma fold_dict_ok l : forall d, keys_distinct d = true -> forallb id_pair_ok d = true -> forallb id_pair_ok l = true ->
+  keys_distinct (fold_left (fun d kv => dict_put d (fst kv) (snd kv)) l d) = true
+  /\ forallb id_pair_ok (fold_left (fun d kv => dict_put d (fst kv) (snd kv)) l d) = true.
+Proof.
+  induction l as [|[k v] l IH]; intros d Hd Hok Hl; cbn [fold_left]; [split; assumption|].
+  cbn [forallb] in Hl. apply andb_true_iff in Hl. destruct Hl as [Hkv Hl]. cbn [fst snd].
+  apply IH; [apply dict_put_keys; exact Hd| |exact Hl].
+  clear IH Hl. induction d as [|[k' v'] d IHd]; cbn [dict_put forallb] in *; [rewrite Hkv; reflexivity|].
+  apply andb_true_iff in Hok. destruct Hok as [H1 H2]. cbn [keys_distinct] in Hd. apply andb_true_iff in Hd. destruct Hd as [_ Hd].
+  destruct (beq k k') eqn:E.
+  - apply beq_eq in E. subst k'. cbn [forallb]. rewrite H2, andb_true_r.
+    unfold id_pair_ok in *. cbn [fst snd] in *. apply andb_true_iff in Hkv. apply andb_true_iff in H1. destruct Hkv, H1.
+    apply andb_true_iff. split; assumption.
+  - cbn [forallb]. rewrite H1. apply IHd; assumption.
+Qed.
+Lemma ok_id_pair : okb id_pair_ok p_id_pair.
+Proof.
+  unfold p_id_pair. eapply ok_bind; [apply ok_string|apply good_string|intros k Hk].
+  eapply ok_bind; [apply ok_any|apply good_p_lit|intros _ _].
+  apply (ok_try id_pair_ok (bs "nil") (fun r => ROk (k, None) r)).
+  - apply (ok_ret id_pair_ok (k, None)). unfold id_pair_ok. cbn [fst snd]. rewrite Hk. reflexivity.
+  - eapply ok_pmap; [apply ok_string|]. intros v Hv. unfold id_pair_ok. cbn [fst snd]. rewrite Hk, Hv. reflexivity.
+Qed.
+Lemma ok_id : okb (cmd_okb true) p_id.
+Proof.
+  unfold p_id. eapply ok_bind; [apply ok_any|apply good_p_lit|intros _ _]. unfold p_id_params.
+  apply (ok_try (cmd_okb true) (bs "nil") (fun r => ROk (CId []) r)); [apply (ok_ret (cmd_okb true) (CId [])); reflexivity|].
+  apply ok_if; [|apply ok_fail].
+  eapply ok_pmap; [apply ok_paren_list; [apply ok_id_pair|apply good_id_pair]|].
+  intros l Hl. cbn [cmd_okb]. destruct (fold_dict_ok l [] eq_refl eq_refl Hl) as [H1 H2]. rewrite H1, H2. reflexivity.
+Qed.
+
+(* ------------------------------------------------------------------ APPEND, STORE, SEARCH *)
+Lemma ok_append : okb (cmd_okb true) p_append.
+Proof.
+  unfold p_append.
+  eapply ok_bind; [apply ok_any|apply good_p_lit|intros _ _].
+  eapply ok_bind; [apply ok_mailbox|apply good_mailbox|intros m Hm].
+  eapply ok_bind; [apply ok_any|apply good_p_lit|intros _ _].
+  eapply ok_bind; [|apply good_append_flags|intros fl Hfl].
+  { unfold p_append_flags. apply (ok_if (forallb flag_ok)).
+    - eapply ok_bind; [apply ok_paren_list; [apply ok_flag|apply good_flag]|apply good_paren_list_of; apply good_flag|intros l Hl].
+      eapply ok_bind; [apply ok_any|apply good_p_lit|intros _ _]. apply ok_ret. exact Hl.
+    - apply (ok_ret (forallb flag_ok) []). reflexivity. }
+  eapply ok_bind; [|apply good_append_date|intros dt Hdt].
+  { unfold p_append_date. apply (ok_if (fun d => match d with None => true | Some t => date_time_wf t end)).
+    - eapply ok_bind; [apply ok_date_time|apply good_date_time|intros t Ht].
+      eapply ok_bind; [apply ok_any|apply good_p_lit|intros _ _]. apply ok_ret. exact Ht.
+    - apply (ok_ret (fun d => match d with None => true | Some t => date_time_wf t end) None). reflexivity. }
+  eapply ok_bind; [apply ok_string|apply good_string|intros msg Hmsg].
+  apply ok_ret. cbn [cmd_okb]. rewrite Hm, Hfl, Hdt, Hmsg. reflexivity.
+Qed.
+
+Lemma nonempty_all_forallb {A} (q : A -> bool) l : nonempty_all q l = true -> forallb q l = true.
+Proof. unfold nonempty_all. destruct l; [discriminate|auto]. Qed.
+
+Lemma ok_store uid : okb (cmd_okb true) (p_store uid).
+Proof.
+  unfold p_store.
+  eapply ok_bind; [apply ok_any|apply good_p_lit|intros _ _].
+  eapply ok_bind; [apply ok_msg_set|apply good_msg_set|intros set Hset].
+  eapply ok_bind; [apply ok_any|apply good_p_lit|intros _ _].
+  eapply ok_bind; [apply ok_any|apply good_store_action|intros act _].
+  eapply ok_bind; [apply ok_any|apply good_p_lit|intros _ _].
+  eapply ok_bind; [apply ok_any|apply good_store_silent|intros silent _].
+  eapply ok_bind; [apply ok_any|apply good_p_lit|intros _ _].
+  eapply ok_bind; [|apply good_store_flags|intros fl Hfl].
+  { unfold p_store_flags. apply (ok_if (forallb flag_ok)).
+    - apply ok_paren_list; [apply ok_flag|apply good_flag].
+    - eapply ok_weaken; [apply nonempty_all_forallb|]. apply ok_list_of; [apply ok_flag|apply good_flag]. }
+  apply ok_ret. cbn [cmd_okb]. rewrite Hset, Hfl. reflexivity.
+Qed.
+
+Lemma ok_search uid : okb (cmd_okb true) (p_search uid).
+Proof.
+  unfold p_search.
+  eapply ok_bind; [apply ok_any|apply good_p_lit|intros _ _].
+  eapply ok_bind; [|apply good_search_charset|intros cs Hcs].
+  { unfold p_search_charset. apply (ok_try lowered_ok (bs "charset")).
+    - eapply ok_bind; [apply ok_any|apply good_p_lit|intros _ _].
+      eapply ok_bind; [apply ok_lower_astring|apply good_lower_astring|intros c Hc].
+      eapply ok_bind; [apply ok_any|apply good_p_lit|intros _ _]. apply ok_ret. exact Hc.
+    - apply (ok_ret lowered_ok (bs "us-ascii")). reflexivity. }
+  eapply ok_bind; [apply ok_list_of; [apply ok_search_key|apply good_search_key]|apply good_list_of; apply good_search_key|intros keys Hk].
+  apply ok_ret. cbn [cmd_okb]. rewrite Hcs. exact Hk.
+Qed.
+
+(* ------------------------------------------------------------------ commands *)
+Lemma ok_command_body uid t : okb (cmd_okb true) (p_command_body uid t).
+Proof.
+  destruct t; cbn [p_command_body].
+  - apply ok_ret. reflexivity.
+  - destruct uid; [|apply ok_ret; reflexivity].
+    eapply ok_bind; [apply ok_any|apply good_p_lit|intros _ _].
+    eapply ok_bind; [apply ok_msg_set|apply good_msg_set|intros set Hset]. apply ok_ret. exact Hset.
+  - eapply ok_bind; [apply ok_any|apply good_p_lit|intros _ _].
+    eapply ok_bind; [apply ok_atom|apply good_atom|intros m Hm]. apply ok_ret. exact Hm.
+  - eapply ok_bind; [apply ok_any|apply good_p_lit|intros _ _].
+    eapply ok_bind; [apply ok_astring|apply good_astring|intros u Hu].
+    eapply ok_bind; [apply ok_any|apply good_p_lit|intros _ _].
+    eapply ok_bind; [apply ok_astring|apply good_astring|intros p Hp]. apply ok_ret. cbn [cmd_okb]. rewrite Hu, Hp. reflexivity.
+  - eapply ok_bind; [apply ok_any|apply good_p_lit|intros _ _].
+    eapply ok_bind; [apply ok_mailbox|apply good_mailbox|intros m Hm]. apply ok_ret. exact Hm.
+  - eapply ok_bind; [apply ok_any|apply good_p_lit|intros _ _].
+    eapply ok_bind; [apply ok_mailbox|apply good_mailbox|intros a Ha].
+    eapply ok_bind; [apply ok_any|apply good_p_lit|intros _ _].
+    eapply ok_bind; [apply ok_mailbox|apply good_mailbox|intros b Hb]. apply ok_ret. cbn [cmd_okb]. rewrite Ha, Hb. reflexivity.
+  - apply ok_list.
+  - apply ok_list.
+  - eapply ok_bind; [apply ok_any|apply good_p_lit|intros _ _].
+    eapply ok_bind; [apply ok_mailbox|apply good_mailbox|intros m Hm].
+    eapply ok_bind; [apply ok_any|apply good_p_lit|intros _ _].
+    eapply ok_bind; [apply ok_any|apply good_paren_list_of; apply good_status_att|intros atts _]. apply ok_ret. exact Hm.
+  - apply ok_id.
+  - apply ok_append.
+  - apply ok_search.
+  - eapply ok_bind; [apply ok_any|apply good_p_lit|intros _ _].
+    eapply ok_bind; [apply ok_msg_set|apply good_msg_set|intros set Hset].
+    eapply ok_bind; [apply ok_any|apply good_p_lit|intros _ _].
+    eapply ok_bind; [apply ok_fetch_atts|apply good_fetch_atts|intros atts Ha]. apply ok_ret. cbn [cmd_okb]. rewrite Hset, Ha. reflexivity.
+  - apply ok_store.
+  - eapply ok_bind; [apply ok_any|apply good_p_lit|intros _ _].
+    eapply ok_bind; [apply ok_msg_set|apply good_msg_set|intros set Hset].
+    eapply ok_bind; [apply ok_any|apply good_p_lit|intros _ _].
+    eapply ok_bind; [apply ok_mailbox|apply good_mailbox|intros m Hm]. apply ok_ret. cbn [cmd_okb]. rewrite Hset, Hm. reflexivity.
+  - eapply ok_bind; [apply ok_any|apply good_p_lit|intros _ _].
+    eapply ok_bind; [apply ok_msg_set|apply good_msg_set|intros set Hset].
+    eapply ok_bind; [apply ok_any|apply good_p_lit|intros _ _].
+    eapply ok_bind; [apply ok_mailbox|apply good_mailbox|intros m Hm]. apply ok_ret. cbn [cmd_okb]. rewrite Hset, Hm. reflexivity.
+  - apply ok_fail.
+Qed.
+Lemma ok_command t : okb (cmd_okb true) (p_command t).
+Proof.
+  destruct t; try apply (ok_command_body false).
+  cbn [p_command]. eapply ok_bind; [apply ok_any|apply good_p_lit|intros _ _].
+  eapply ok_bind; [apply ok_any|apply good_atom|intros c _].
+  destruct (lookup cmd_toks (lower_s c)) as [t'|]; [|apply ok_fail].
+  destruct (is_uid_command t'); [apply ok_command_body|apply ok_fail].
+Qed.
+
+Theorem ok_parse_core : okb wf_canon parse_core.
+Proof.
+  unfold parse_core.
+  eapply ok_bind; [apply (ok_many1 tag_char)|apply good_many1|intros tag Htag].
+  eapply ok_bind; [apply ok_any|apply good_p_lit|intros _ _].
+  eapply ok_bind; [apply ok_any|apply good_atom|intros c _].
+  destruct (lookup cmd_toks (lower_s c)) as [t|]; [|apply ok_fail].
+  eapply ok_bind; [apply ok_command|apply good_command|intros body Hb].
+  apply ok_ret. unfold wf_canon, wfb. cbn [a_tag a_cmd]. rewrite Hb, andb_true_r. exact Htag.
+Qed.
+
+End Outputs.
+
+(* ------------------------------------------------------------------ soundness *)
+Theorem parse_core_wf s a r : Z.of_nat (List.length s) < 10 ^ 4300 -> parse_core s = ROk a r -> wf_canon a = true.
+Proof. intros Hs E. eapply (ok_parse_core (List.length s) Hs); [|exact E]. lia. Qed.
